@@ -29,6 +29,8 @@ type fqBuilder struct {
 	root    string // "" or "root." (Wrapped)
 	asyncOK bool   // may add ASYNC/SPIN/SPINASYNC fx items (sites recorded in async)
 	async   []int
+	// riskyArgs: background calls may get argument expressions that fail on some rows
+	riskyArgs bool
 }
 
 func (b *fqBuilder) next(position string) int {
@@ -65,6 +67,7 @@ func faultDoc(t *rapid.T) map[string]any {
 			"n":    nested,
 			"tags": tags,
 			"grid": grid,
+			"o":    map[string]any{"p": float64(rapid.IntRange(1, 3).Draw(t, "op")), "q": rapid.SampledFrom([]string{"k", "m"}).Draw(t, "oq")},
 		})
 	}
 	nu := rapid.IntRange(0, 3).Draw(t, "nu")
@@ -129,10 +132,16 @@ func (b *fqBuilder) selectItem(prefix string, nestedOK bool) string {
 	case "async", "spin", "spinasync":
 		b.site++
 		b.async = append(b.async, b.site)
-		if k == "async" {
-			return fmt.Sprintf("ASYNC.fx(%d, %s) AS y%d", b.site, col("a"), b.site)
+		// the argument is evaluated before the call is handed to its goroutine; some argument
+		// expressions fail on particular rows only (division by zero, index past the end)
+		arg := col("a")
+		if b.riskyArgs {
+			arg = rapid.SampledFrom([]string{col("a"), col("a") + " DIV (" + col("id") + " - 2)", "`" + prefix + "tags[1]`", "`" + prefix + "n[0].v`", col("a") + " % (" + col("id") + " - 1)"}).Draw(b.t, "risky_arg")
 		}
-		return fmt.Sprintf("%s.fx(%d, %s)", strings.ToUpper(k), b.site, col("a"))
+		if k == "async" {
+			return fmt.Sprintf("ASYNC.fx(%d, %s) AS y%d", b.site, arg, b.site)
+		}
+		return fmt.Sprintf("%s.fx(%d, %s)", strings.ToUpper(k), b.site, arg)
 	}
 	return col("id")
 }
@@ -196,9 +205,13 @@ func (b *fqBuilder) simpleSelect(table string) string {
 func genFaultQuery(t *rapid.T) faultQuery { return genFaultQueryOpt(t, "", false) }
 
 func genFaultQueryOpt(t *rapid.T, root string, asyncOK bool) faultQuery {
+	return genFaultQueryRisky(t, root, asyncOK, false)
+}
+
+func genFaultQueryRisky(t *rapid.T, root string, asyncOK, riskyArgs bool) faultQuery {
 	T, U := root+"t", root+"u"
 	for attempt := 0; ; attempt++ {
-		b := &fqBuilder{t: t, root: root, asyncOK: asyncOK}
+		b := &fqBuilder{t: t, root: root, asyncOK: asyncOK, riskyArgs: riskyArgs}
 		shape := rapid.SampledFrom([]string{"simple", "derived", "cte", "cte_chain", "group_having", "union", "join", "modifiers", "star", "nested_sub",
 			"cte_union", "derived_with", "join_derived_with", "cte_direct", "join_on_func", "selector_cols", "selector_from"}).Draw(t, "shape")
 		var q string
